@@ -193,7 +193,7 @@ Terminate(n) ==
 
 Next ==
     /\ (MaxLen > 0 => steps < MaxLen)
-    /\ \/ \E t \in TermIds : Choose(t)
+    /\ \/ (tid = NoTerm /\ \E t \in TermIds : Choose(t))   \* guard first: TermIds can be large
        \/ \E p \in 1..2 : FlipPred(p)
        \/ \E b \in BOOLEAN : AddSol(b)
        \/ ClearSol
@@ -207,7 +207,7 @@ IsEval == lastAct'.act = "Eval"
 EvN == lastAct'.args.n
 EvR == lastAct'.exp.r
 
-TypeOK == /\ tid \in TermIds \cup {NoTerm}
+TypeOK == /\ tid \in Nat
           /\ \A n \in 1..NN : cnt[n] \in 0..CntCap
           /\ (tid # NoTerm => tab = Tab(tid))
           /\ (tid # NoTerm => \A n \in 1..NN : (term[n] \/ cnt[n] > 0) => n \in Live(T))
